@@ -77,4 +77,129 @@ theorem toggle_safe_off (s : W) (hi : IdleZ s) (t : Nat) (ht : t = 1 ∨ t = 2) 
     wireMessages (writeMessage s1 t data).2 = wireMessages s ++ [⟨t, false, data⟩] := by
   first | exact CompressedWrite.toggled_off_message_plain .. | (apply CompressedWrite.toggled_off_message_plain <;> assumption)
 
+/-! ### non-vacuity -/
+section NonVacuity
+set_option linter.defProp false
+
+/-- a client connection, write buffer 4096, permessage-deflate negotiated, write compression enabled
+    (the default), one masking key available -/
+def witZ : W := { newW false 4096 false true with keys := [0x37, 0xfa, 0x21, 0x3d] }
+
+/-- witness for `compressed_message_roundtrip` / `toggle_safe_off`: the fresh negotiated client is `IdleZ` -/
+def witZ_idle : IdleZ witZ :=
+  { healthy := rfl, noFaults := rfl, noWriter := rfl
+    dead := by intro m h; cases h
+    size := by decide
+    whole := ⟨[], rfl, rfl⟩
+    nego := rfl, enabled := rfl }
+
+/-- "Hel" ++ "lo" written in two calls; flate pushes the RFC 7692 §7.2.3.1 deflate stream of "Hello"
+    (f2 48 cd c9 c9 07 00) downstream in four chunks: one during each Write, two during Close -/
+def witWrites : List (Bytes × List Bytes) :=
+  [([0x48, 0x65, 0x6c], [[0xf2, 0x48]]), ([0x6c, 0x6f], [[0xcd]])]
+def witDnC : List Bytes := [[0xc9, 0xc9], [0x07, 0x00]]
+/-- the complete deflate stream: pushed bytes ++ 00 00 ff ff -/
+def witFull : Bytes := [0xf2, 0x48, 0xcd, 0xc9, 0xc9, 0x07, 0x00, 0x00, 0x00, 0xff, 0xff]
+
+def witWrites_sz : ∀ w ∈ witWrites, ∀ c ∈ w.2, c.length < 2 ^ 40 := by decide
+def witDnC_sz : ∀ c ∈ witDnC, c.length < 2 ^ 40 := by decide
+def witFull_tail : 4 ≤ witFull.length ∧ witFull.drop (witFull.length - 4) = sync4 := by decide
+def witFull_cons : pushed witWrites witDnC = witFull.take (witFull.length - 4) := by decide
+
+/-- non-vacuity of `compressed_message_roundtrip`: all hypotheses hold for a client (buffer 4096,
+    compression negotiated) writing the text message "Hello" in two pieces with flate's output in four
+    chunks, and the theorem applies -/
+example :
+    let s' := run witZ (zOps witZ 1 witWrites witDnC witFull)
+    IdleZ s' ∧
+    wireMessages s' = wireMessages witZ ++ [⟨1, true, witFull.take (witFull.length - 4)⟩] ∧
+    wireControls s' = wireControls witZ :=
+  compressed_message_roundtrip witZ witZ_idle 1 (Or.inl rfl) witWrites witDnC witFull
+    witWrites_sz witDnC_sz witFull_tail witFull_cons
+
+/-- … and the wire of that run really is one masked FIN+RSV1 text frame of 7 bytes -/
+example : (run witZ (zOps witZ 1 witWrites witDnC witFull)).wire =
+    [0xc1, 0x87, 0x37, 0xfa, 0x21, 0x3d, 197, 178, 236, 244, 254, 253, 33] := by decide +kernel
+
+/-- the first two bytes of that frame as the peer's reader parses them: FIN, RSV1, text, masked, len 7 -/
+def witHdr : Hdr := parseHdr 0xc1 0x87
+def witHdr_rsv1 : witHdr.rsv1 = true := by decide
+/-- a server reader between messages (`final = true`) with compression negotiated has no objection -/
+def witHdr_rest : ¬ HdrLogic.Violates true true (!true) witHdr := by unfold HdrLogic.Violates; decide
+
+/-- non-vacuity of `rsv1_iff_decompressor`: the header c1 87 (what the client above put on the wire)
+    read by an idle server reader satisfies both hypotheses, and the theorem applies -/
+example : (headerErrors true false true witHdr ≠ []) ∧ (headerErrors true true true witHdr = []) :=
+  rsv1_iff_decompressor true true witHdr witHdr_rsv1 witHdr_rest
+
+def witData : Bytes := strBytes "Hello, plain world"
+
+/-- non-vacuity of `toggle_safe_off`: the same negotiated client (buffer 4096), after
+    EnableWriteCompression(false), sends an 18-byte text message -/
+example :
+    let s1 := enableWriteCompression witZ false
+    (writeMessage s1 1 witData).1 = none ∧
+    wireMessages (writeMessage s1 1 witData).2 = wireMessages witZ ++ [⟨1, false, witData⟩] :=
+  toggle_safe_off witZ witZ_idle 1 (Or.inl rfl) witData (by decide +kernel)
+
+/-- the RFC 6455 §1.3 sample key and the literal offer / announcement of today's client.go / server.go -/
+def witKey : Bytes := strBytes "dGhlIHNhbXBsZSBub25jZQ=="
+def witOffer : Bytes := strBytes "permessage-deflate; server_no_context_takeover; client_no_context_takeover"
+
+/-- the RFC 6455 §1.3 opening handshake (canonical header keys) plus the Dialer's compression offer -/
+def witReq : Req :=
+  { method := strBytes "GET", host := strBytes "server.example.com"
+    hdr := [(strBytes "Upgrade", [strBytes "websocket"]),
+            (strBytes "Connection", [strBytes "Upgrade"]),
+            (strBytes "Sec-Websocket-Key", [witKey]),
+            (strBytes "Origin", [strBytes "http://server.example.com"]),
+            (strBytes "Sec-Websocket-Version", [strBytes "13"]),
+            (strBytes "Sec-Websocket-Extensions", [witOffer])] }
+/-- an Upgrader with EnableCompression, default origin policy, 4096-byte buffers -/
+def witU : UCfg :=
+  { subprotocols := none, enableCompression := true, checkOrigin := none, readBufferSize := 4096,
+    writeBufferSize := 4096, pool := false, handshakeTimeout := false }
+def witHj : Hijack := { ok := true, brSize := 4096, buffered := 0, availLen := 4096 }
+
+/-- witness for `server_any_offer`: Upgrade accepts that request (every condition of the chain holds;
+    the 101 bytes contain the SHA-1 accept token and are left unevaluated) -/
+def witUp_ok : ∃ p, upgrade witU witReq none (some (strBytes "server.example.com")) witHj = .ok p :=
+  (HttpLogic.upgrade_ok_iff witU witReq none (some (strBytes "server.example.com")) witHj).mpr (by decide +kernel)
+
+/-- non-vacuity of `server_any_offer`: the hypothesis holds for the RFC sample request with the Dialer's
+    offer against an Upgrader with compression enabled, and the theorem shows that it compresses -/
+example : ∃ b a, upgrade witU witReq none (some (strBytes "server.example.com")) witHj = .ok (b, a) ∧
+    a.compress = true := by
+  obtain ⟨⟨b, a⟩, h⟩ := witUp_ok
+  refine ⟨b, a, h, ?_⟩
+  rw [server_any_offer _ _ _ _ _ _ _ h]
+  decide +kernel
+
+/-- the server's 101 for that key, as the client sees it: RFC 6455 §1.3 accept token + the announcement -/
+def witReply : Reply :=
+  { status := 101
+    hdr := [(strBytes "Upgrade", [strBytes "websocket"]),
+            (strBytes "Connection", [strBytes "Upgrade"]),
+            (strBytes "Sec-Websocket-Accept", [strBytes "s3pPLMBiTxaQ9kYGzzhZRbK+xOo="]),
+            (strBytes "Sec-Websocket-Extensions", [witOffer])] }
+
+/-- Boolean test "x = .ok d" (`Except` has no `DecidableEq` instance) -/
+def witOkIs (x : Except DErr Dialed) (d : Dialed) : Bool :=
+  match x with | .ok d' => d' == d | .error _ => false
+def witOkIs_sound {x : Except DErr Dialed} {d : Dialed} (h : witOkIs x d = true) : x = .ok d := by
+  cases x <;> simp_all [witOkIs]
+
+/-- witness for `client_any_reply`: the client accepts that reply for the sample key (the kernel
+    evaluates SHA-1 + base64 here) -/
+def witReply_ok : checkReply witKey witReply = .ok { compress := true, subprotocol := [] } :=
+  witOkIs_sound (by decide +kernel)
+
+/-- non-vacuity of `client_any_reply`: the hypothesis holds for the RFC 6455 sample key / accept pair
+    with permessage-deflate announced, and the theorem applies -/
+example : ({ compress := true, subprotocol := [] } : Dialed).compress =
+    ((parseExtensions (witReply.values "Sec-Websocket-Extensions")).any (fun e => e.name == strBytes "permessage-deflate")) :=
+  client_any_reply witKey witReply _ witReply_ok
+
+end NonVacuity
+
 end WS.Props.C15
